@@ -31,3 +31,14 @@ also('RecordLayer._decryptStreamThenMAC', 'contracts.recordlayer', 'C08')
 also('RecordLayer._decryptAndUnseal', 'contracts.recordlayer', 'C08')
 # C08 / C17 "after such a failure ... the session is not resumable": Session.valid() is the gate every client handshake uses
 also('Session.valid[', 'contracts.small_extras', 'C08', 'C17')
+# C02 "taken from another key epoch ... is rejected": after a KeyUpdate the new epoch's key, iv AND the secret handed on for
+# the next update all derive from the NEW secret (otherwise later epochs repeat an earlier key and old records verify again)
+also('RecordLayer._calcTLS1_3KeyUpdate/rfc8446-7.2', 'contracts.m2_tls13_states', 'C02')
+also('RecordLayer.calcTLS1_3KeyUpdate_sender', 'contracts.m2_posthandshake', 'C02')
+also('RecordLayer.calcTLS1_3KeyUpdate_reciever', 'contracts.m2_posthandshake', 'C02')
+# C08 "after such a failure the connection is closed, the session is not resumable": the received-alert branch of _getMsg
+also('_getMsg/alert-branch', 'contracts.m2_getmsg', 'C08')
+# C12 "preceded by the correct MAC": which digest and MAC length the record layer uses for a CBC suite (the check itself takes
+# the MAC object as a parameter)
+also('RecordLayer._getMacSettings', 'contracts.suites', 'C12')
+also('RecordLayer._getHMACMethod', 'contracts.suites', 'C12')
